@@ -302,6 +302,9 @@ def selfies_code_objects():
     return out
 
 
+_CTA = {}      # code -> {offset: ("check" | "act", global name)}, filled by compute_shared_sites
+
+
 def compute_shared_sites(codes):
     """Bytecode offsets at which selfies code touches process-wide mutable state, computed from
     the code under test itself (so state introduced by a change is found as well):
@@ -370,6 +373,7 @@ def compute_shared_sites(codes):
             if ins.opname in ("STORE_GLOBAL", "DELETE_GLOBAL"):
                 stored[co.co_filename].add(ins.argval)
     sites = {}
+    _CTA.clear()
     for co in codes:
         g = by_file.get(os.path.abspath(co.co_filename), {})
         offs = set()
@@ -393,6 +397,17 @@ def compute_shared_sites(codes):
             for ins in seq:
                 if ins.opname.startswith("LOAD_FAST") and ins.argval in aliases:
                     offs.add(ins.offset)
+        # check-then-act on a rebound global (`if _X is None: _X = make()`): the loads are the
+        # "check", a later STORE_GLOBAL of the same name in the same function is the "act"
+        loaded = {}
+        for ins in seq:
+            if ins.opname == "LOAD_GLOBAL" and ins.argval in stored[co.co_filename]:
+                loaded.setdefault(ins.argval, []).append(ins.offset)
+            elif ins.opname == "STORE_GLOBAL" and ins.argval in loaded:
+                d = _CTA.setdefault(co, {})
+                d[ins.offset] = ("act", ins.argval)
+                for o in loaded[ins.argval]:
+                    d.setdefault(o, ("check", ins.argval))
         if co in mutable_default_codes:
             offs.add(2)                   # a function with a mutable default argument
         if co in wrapped:
@@ -512,6 +527,12 @@ class Sched:
         self.miss_calls = 0
         self._shared = _state.get("shared_sites", {})
         self._offset = -1
+        self._held = {}                 # thread -> (file, global) it is parked in front of storing
+        self._holds = [0] * n
+        self._held_keys = set()
+        self._release_after = {}        # thread that just passed the check -> thread to wake next
+        self.holds_fired = 0
+        self._hold_on = bool(policy.get("hold")) and policy["kind"] == "shared" and explicit is None
         self.shared_switches = 0
         self._hot = {}
         self.stalls_fired = 0
@@ -587,10 +608,12 @@ class Sched:
             self.outcome = "step-budget"
             self._finish()
             self.sems[tid].acquire()
-        if self.gran_line and offset not in _line_starts(code):
-            return
-        self._offset = offset
-        to = self.decide(tid, code)
+        to = self.hold_decide(tid, code, offset) if self._hold_on else None
+        if to is None:
+            if self.gran_line and offset not in _line_starts(code):
+                return
+            self._offset = offset
+            to = self.decide(tid, code)
         if to is not None and to != tid:
             # everything a RecursionError could interrupt (Python-level calls) comes first ...
             self._record(tid, to, "preempt", code, offset)
@@ -618,6 +641,38 @@ class Sched:
                 self.double_aug += 1
         elif name in ("encoder", "decoder"):
             self.in_aug[tid] = False
+
+    def hold_decide(self, tid, code, offset):
+        """Check-then-act forcing (policy 'shared' with hold): a thread about to rebind a global it
+        has tested (`if _X is None: _X = make()`) is parked in front of the store until another
+        thread has made the same test - or nobody else can run - and is then woken at once, so that
+        both act on the stale test.  Works at instruction granularity whatever the run's own."""
+        t = self._release_after.pop(tid, None)
+        if t is not None and t in self._held and self.alive[t] and self.blocked[t] is None:
+            del self._held[t]
+            return t
+        ent = _CTA.get(code)
+        if ent is None:
+            return None
+        ent = ent.get(offset)
+        if ent is None:
+            return None
+        key = (code.co_filename, ent[1])
+        if ent[0] == "act":
+            if self._holds[tid] < 2 and key not in self._held_keys:
+                cands = [c for c in self.runnable(exclude=tid) if c not in self._held]
+                if cands:
+                    self._holds[tid] += 1
+                    self._held[tid] = key
+                    self._held_keys.add(key)      # one parked thread per global and run: the second one must get through
+                    self.holds_fired += 1
+                    return self.rng.choice(cands)
+        else:
+            for t, k in self._held.items():
+                if k == key and t != tid:
+                    self._release_after[tid] = t
+                    break
+        return None
 
     def decide(self, tid, code):
         if self.explicit is not None:
@@ -651,12 +706,12 @@ class Sched:
             offs = self._shared.get(code)
             if offs is not None and self._offset in offs:
                 if self.rng.random() < self.policy["q"]:
-                    cands = self.runnable(exclude=tid)
+                    cands = [c for c in self.runnable(exclude=tid) if c not in self._held]
                     if cands:
                         self.shared_switches += 1
                         return self.rng.choice(cands)
             elif self.rng.random() < self.p:
-                cands = self.runnable(exclude=tid)
+                cands = [c for c in self.runnable(exclude=tid) if c not in self._held]
                 if cands:
                     return self.rng.choice(cands)
             return None
@@ -692,6 +747,12 @@ class Sched:
             return cands[0]
         if self.policy["kind"] in ("pct", "stall"):
             return max(cands, key=lambda i: self.prio[i])
+        if self._held:
+            free = [c for c in cands if c not in self._held]
+            if free:
+                return self.rng.choice(free)
+            for c in cands:
+                self._held.pop(c, None)       # nobody else can run: the parked threads go on
         return self.rng.choice(cands)
 
     def thread_exit(self, tid):
@@ -824,7 +885,7 @@ def run(sf, spec):
         "steps": S.step, "tsteps": S.tsteps, "switches": S.switches, "exits": S.exits, "first": first,
         "lock_ops": S.lock_ops, "late": S.late, "window_switches": S.window_switches,
         "overlap": S.overlap, "sites": sorted(S.sites), "miss_calls": S.miss_calls,
-        "double_miss": S.double_miss, "double_aug": S.double_aug, "stalls_fired": S.stalls_fired, "shared_switches": S.shared_switches,
+        "double_miss": S.double_miss, "double_aug": S.double_aug, "stalls_fired": S.stalls_fired, "shared_switches": S.shared_switches, "holds_fired": S.holds_fired,
         "digest": h.hexdigest(), "state_diff": state_diff,
     }
 
